@@ -158,6 +158,18 @@ PROPS["C13"] = {
     "assumptions": H3_ASSUME,
 }
 
+PROPS["C17"] = {
+    "engine": "h3",
+    "level": "exploration",
+    "budget": {"quick": 45, "thorough": 600},
+    "runs_per_proc": 25,
+    "technique": "deterministic simulation of one real server with a master key: values of sampled sizes are published to an encrypted stream and read back through the real Subscribe handler; stored-byte flip faults (record checksum recomputed) are enumerated over every byte position of sampled stored values, and the server is restarted under a different master key",
+    "level_text": "exploration over values (empty, 1 B ... 4 KiB, marker-carrying) with enumeration over byte positions: round trip equality, no plaintext marker in any segment file, and for every tampered byte / wrong key a status error - never data, never a crash",
+    "level_note": "tampering is done in the segment file of the running server with the commit log's own record CRC fixed up (plain bit rot is caught earlier by that CRC and is not this property); byte positions are exhaustive for the sampled values and the sampled flip mask",
+    "rule": "one evaluation = one program of 2-9 publishes, 1-3 tampered values (all byte positions) and optionally a wrong-key restart; distinct = distinct event-log hash; non-trivial = >=2 values round-tripped and (>=10 byte flips or a wrong-key restart)",
+    "assumptions": H3_ASSUME,
+}
+
 NOT_APPLICABLE = [
     {"property_id": pid, "reason": "check not built yet in this round (engine under construction); see DESIGN.md section 9 build order"}
     for pid in ["C%02d" % i for i in range(1, 20)] if pid not in PROPS
